@@ -23,6 +23,7 @@ type csvCase struct {
 	// prog: the case runs the real csvimport program twice (inputs data, data2), restarts and lists
 	prog  bool
 	data2 string
+	table string // table name for a program case ("" = t)
 }
 
 func csvField(r *hx.Rng, ty string, sep rune) string {
@@ -73,6 +74,10 @@ func runCsv(cfg *config) {
 						cc.data = string(b)
 					}
 					cases = append(cases, cc)
+				case "table":
+					if b, err := hex.DecodeString(f[1]); err == nil {
+						cc.table = string(b)
+					}
 				case "program":
 					cc.prog = true
 					if f[1] != "-" {
@@ -174,6 +179,8 @@ func runCsv(cfg *config) {
 			}
 			cases = append(cases, csvCase{schema: "c0:int c1:varchar", dst: "c0,c1", src: "0,1", sep: ',', data: mk(), data2: mk(), prog: true})
 		}
+		// a table name the program's own catalog query cannot quote: a reported error, not a crash
+		cases = append(cases, csvCase{schema: "c0:int c1:varchar", dst: "c0,c1", src: "0,1", sep: ',', data: "1,a\n", data2: "2,b\n", prog: true, table: "o'brien"})
 	}
 	cwd, _ := os.Getwd()
 	inPath, outPath, dbDir := filepath.Join(cwd, "csv.in"), filepath.Join(cwd, "csv.out"), filepath.Join(cwd, "csvdb")
@@ -189,7 +196,11 @@ func runCsv(cfg *config) {
 		w := bufio.NewWriter(fin)
 		for _, c := range cases[start:] {
 			if c.prog {
-				fmt.Fprintf(w, "case\nschema %s\nmap %s %s %d\nprogram %s %s\n", c.schema, c.dst, c.src, int(c.sep), hx.Hex([]byte(c.data)), hx.Hex([]byte(c.data2)))
+				tbl := ""
+				if c.table != "" {
+					tbl = "table " + hx.Hex([]byte(c.table)) + "\n"
+				}
+				fmt.Fprintf(w, "case\nschema %s\n%smap %s %s %d\nprogram %s %s\n", c.schema, tbl, c.dst, c.src, int(c.sep), hx.Hex([]byte(c.data)), hx.Hex([]byte(c.data2)))
 				continue
 			}
 			fmt.Fprintf(w, "case\nschema %s\nmap %s %s %d\ncsv %s\n", c.schema, c.dst, c.src, int(c.sep), hx.Hex([]byte(c.data)))
@@ -264,12 +275,19 @@ func runCsv(cfg *config) {
 				special = l
 			}
 		}
+		if c.table != "" {
+			tr.Op("table %s", hx.Hex([]byte(c.table)))
+		}
 		tr.Op("map %s %s %d", c.dst, c.src, int(c.sep))
 		tr.Out("%s", types)
 		if c.prog {
 			tr.Op("program %s %s", hx.Hex([]byte(c.data)), hx.Hex([]byte(c.data2)))
 			if special != "" {
-				tr.Out("%s", special)
+				// what went wrong around the runs of the real program (judge only)
+				if len(special) > 300 {
+					special = special[:300]
+				}
+				tr.Tilde(special)
 			}
 			for _, rec := range recs {
 				tr.Op("%s", rec)
